@@ -96,6 +96,9 @@ def check_C19(args):
                     cfg = b["cfg"]
                     rp = common.save_replay(pid, key, {"batch": dict(b, http=[x for x in b["http"] if same_req(x, h)] if "hdr" in h else [],
                                                                      rpc=[x for x in b["rpc"] if same_req(x, h)] if "pw" in h else []), "request": h})
+                    if h.get("viaRenewedCookie"):
+                        what += " (refused at first, but the refusal set a fresh session cookie, and the same request with that cookie"
+                        what += " is served)"
                     V.violation(rp, "%s was served data (%s) although it must be refused; configuration %s, history %s"
                                 % (what, h.get("leaked") or ("%s rows" % h.get("rows")) if "rows" in h or "leaked" in h else "status %s" % h.get("status"),
                                    cfg, [s["a"] + (":" + s.get("tok", "") if s.get("tok") else "") for s in b["hist"]]))
